@@ -17,6 +17,7 @@ A scenario is a dict:
 from __future__ import annotations
 
 import asyncio
+import copy
 import uuid
 
 import anyio
@@ -124,22 +125,72 @@ async def _scenario(sc):
         if cancel is not None and cancel < 0:
             tok.cancel()
 
+        early_writes = []
+
+        def written_token():
+            """The progress token the REQUEST carries (what a server echoes), once the request has been written;
+            before that - messages already queued when the call is made - the token the id supply will hand out."""
+            while True:
+                try:
+                    early_writes.append(out_recv.receive_nowait())
+                except anyio.WouldBlock:
+                    break
+            for w in early_writes:
+                if getattr(w, "method", None) is not None and getattr(w, "id", None) is not None:
+                    meta = (getattr(w, "params", None) or {}).get("_meta")
+                    if isinstance(meta, dict) and "progressToken" in meta:
+                        return meta["progressToken"]
+                    return token
+            return token
+
         async def feeder():
             for t, m in post:
                 await vsleep_until(t0 + t * TICK)
-                in_send.send_nowait(build_message(m, me_actual, token))
+                in_send.send_nowait(build_message(m, me_actual, written_token() if has_cb else token))
 
         async def canceller():
             await vsleep_until(t0 + cancel * TICK)
             tok.cancel()
 
         result = {}
+        sib_obs = []
+
+        async def sibling(i):
+            """Another request sharing the SAME cancellation token (a caller cancelling a group of requests), on a
+            connection of its own, with no traffic.  Each request owes its peer its own cancelled notification."""
+            s_in_send, s_in_recv = anyio.create_memory_object_stream(1000)
+            s_out_send, s_out_recv = anyio.create_memory_object_stream(1000)
+            sid = f"sibling-{i}"
+            out = "returned"
+            try:
+                await sm.send_message(s_in_recv, s_out_send, "tools/call", None, timeout=(sc["D"] + 200) * TICK,
+                                      message_id=sid, cancellation_token=tok)
+            except sm.CancelledError:
+                out = "cancelled"
+            except TimeoutError:
+                out = "timeout"
+            except Exception as e:        # noqa: BLE001
+                out = "exc:" + type(e).__name__
+            ws = []
+            while True:
+                try:
+                    ws.append(s_out_recv.receive_nowait())
+                except anyio.WouldBlock:
+                    break
+            names = [(w.params or {}).get("requestId") for w in ws if getattr(w, "method", None) == "notifications/cancelled"]
+            sib_obs.append({"id": sid, "out": out, "cancelled_notifications": names,
+                            "request_written": any(getattr(w, "id", None) == sid for w in ws)})
+
         async with anyio.create_task_group() as tg:
+            for i in range(int(sc.get("siblings") or 0) if tok is not None else 0):
+                tg.start_soon(sibling, i)
+            if sc.get("siblings") and tok is not None:
+                await anyio.sleep(0)          # the siblings are under way before this request starts
             tg.start_soon(feeder)
             if cancel is not None and cancel >= 0:
                 tg.start_soon(canceller)
             try:
-                r = await sm.send_message(in_recv, out_send, "tools/call", sc.get("params"),
+                r = await sm.send_message(in_recv, out_send, "tools/call", copy.deepcopy(sc.get("params")),
                                           timeout=sc["D"] * TICK, message_id=me,
                                           cancellation_token=tok, progress_callback=cb if has_cb else None)
                 if isinstance(r, dict) and set(r) == {"tok"}:
@@ -157,8 +208,13 @@ async def _scenario(sc):
             except Exception as e:  # anything else is an unclassified failure
                 result["out"] = ("exc", type(e).__name__, str(e)[:200])
             result["end"] = (loop.time() - t0) / TICK
+            if sc.get("siblings") and tok is not None:
+                # give the siblings the time to see the token (one poll) before the group is torn down
+                with anyio.move_on_after((sc.get("cancel") or 0) * TICK + 2.0):
+                    while len(sib_obs) < int(sc["siblings"]) and tok.is_cancelled:
+                        await anyio.sleep(0.05)
             tg.cancel_scope.cancel()
-        writes = []
+        writes = list(early_writes)
         while True:
             try:
                 writes.append(out_recv.receive_nowait())
@@ -166,6 +222,7 @@ async def _scenario(sc):
                 break
         result["writes"] = writes
         result["cb"] = cb_calls
+        result["siblings"] = sib_obs
         result["me"] = me_actual
         result["token"] = token
         return result
@@ -273,6 +330,10 @@ def observe(sc, res):
         cb_vals.append(v if isinstance(v, int) and not isinstance(v, bool) else -1)
         if isinstance(v, int) and expected_cb_args(v) != tuple(args):
             problems.append(f"callback called with {args!r}, notified values were {expected_cb_args(v)!r}")
+    for so in res.get("siblings") or []:
+        if so["out"] == "cancelled" and so["request_written"] and so["cancelled_notifications"] != [so["id"]]:
+            problems.append(f"sibling-request-sharing-the-token was cancelled with notifications {so['cancelled_notifications']!r} "
+                            f"(exactly one naming {so['id']!r} is owed)")
     obs = {"out": o, "end": end_t, "written": written, "notifs": len(cancels), "cb": cb_vals}
     return obs, problems
 
@@ -354,6 +415,7 @@ def check_scenarios(ctx, scenarios, model, spec, which):
 def scenario_case(sc):
     return {"D": sc["D"], "me": sc.get("me"), "has_cb": bool(sc.get("has_cb")), "cancel": sc.get("cancel"),
             "cb_raise": sorted(sc.get("cb_raise") or ()), "params": sc.get("params"),
+            **({"siblings": sc["siblings"]} if sc.get("siblings") else {}),
             "arrivals": [[t, list(m)] for t, m in sc["arrivals"]]}
 
 
